@@ -109,6 +109,7 @@ class Tracer:
                             "pre": pre, "msg": msg, "post": project.project_ro_xml(target.xml),
                             "status": status, "warns": warns, "ser_eq": str(ro) == before,
                             "intact": True, "cls": "", "completed_eq": True, "acc_eq": True, "expose_intact": True, "mid": mid,
+                            "completed_acc": bool(target.completed),
                             "has_sink": tracer.sink is not None or tapped is not None})
             finally:
                 tracer.depth -= 1
